@@ -15,8 +15,12 @@
 (* between each call and return explains every logged value: TLC searches    *)
 (* them all.  Lin steps are only tried where one is needed (before the       *)
 (* return of an operation that has not taken effect, before a receive from   *)
-(* an empty queue of that label set): any linearization can be turned into such a just-in-time *)
-(* one with the same order of Lin steps, hence the same values.              *)
+(* an empty queue of that label set): any linearization can be turned into   *)
+(* such a just-in-time one with the same order of Lin steps, hence the same  *)
+(* values.  Trace_AlertsConc.cfg: a Put is one Lin step (the code);          *)
+(* Trace_AlertsConc_alert.cfg: one Lin step per alert (the verdict for a     *)
+(* history the first configuration rejects).  TLC cannot write states deeper *)
+(* than 65535 to its disk queue: keep a trace file below ~45000 events.      *)
 EXTENDS AlertsConc, Json, SequencesExt
 
 CONSTANT TraceFile
